@@ -3,7 +3,7 @@ import NdnModel.Basic
   The proleptic Gregorian calendar as CPython's `datetime` implements it (Lib/_pydatetime.py; the C module
   Modules/_datetimemodule.c carries the same algorithms): `_is_leap`, `_days_before_year`, `_days_in_month`,
   `_days_before_month`, `_ymd2ord`, `_ord2ymd` (400/100/4/1-year cycles), `datetime.__add__` with a
-  `timedelta(seconds=n)`, `datetime.replace(year=…)`, `astimezone(UTC)` of an aware datetime with a fixed offset.
+  `timedelta(seconds=n)`, `datetime.replace(year=…)`, `astimezone(UTC)` of an aware datetime given the offset its tzinfo reports for it.
 
   An instant = (`date.toordinal()` : 1 = 0001-01-01, second of the day, microsecond).
 -/
@@ -128,13 +128,19 @@ def addYears (t : Instant) (k : Nat) : Except PyErr Instant :=
   | .ok o => .ok { t with ord := o }
   | .error e => .error e
 
-/-- the UTC reading of a datetime: a naive one (`offMin = none`) is taken as it is, an aware one with the fixed
-    offset `o` minutes is `(dt - timedelta(minutes=o)).replace(tzinfo=UTC) + timedelta(0)` (`astimezone(UTC)`) -/
-def toUtc (t : Instant) (offMin : Option Int) : Except PyErr Instant :=
-  match offMin with
+/-- a `tzinfo`: the UTC offset in seconds it reports (`tzinfo.utcoffset(dt)`) for a wall-clock reading and its
+    `fold` attribute.  Any function: a fixed-offset `timezone`, a `zoneinfo.ZoneInfo` whose offset changes with
+    daylight saving (and which tells the two occurrences of a repeated reading apart by `fold`), anything else. -/
+abbrev Zone := Instant → Bool → Int
+
+/-- the UTC reading of a datetime: a naive one (`off = none`) is taken as it is; for an aware one, whose tzinfo
+    reports the offset `o` seconds for this reading, `astimezone(UTC)` is
+    `(dt - utcoffset).replace(tzinfo=UTC)` handed to `UTC.fromutc`, which adds `timedelta(0)` -/
+def toUtc (t : Instant) (off : Option Int) : Except PyErr Instant :=
+  match off with
   | none => .ok t
   | some o => do
-    let u ← addSeconds t (-(o * 60))
+    let u ← addSeconds t (-o)
     addSeconds u 0
 
 /-- calendar fields `(year, month, day, hour, minute, second)` of an instant -/
